@@ -1610,6 +1610,37 @@ func (c *Ctx) EXTVAL(rule string) []report.Obligation {
 	if n == 0 {
 		out = append(out, bad(rule, "loader :: resource naming", "", "no function of package loader chooses between two `name` stores after looking up `external`: the rule sees nothing"))
 	}
+	// every comma-ok lookup of `external` in the packages that interpret it looks at the value: presence alone
+	// says nothing, `external: false` is the default written out
+	for _, fn := range c.P.Funcs {
+		id := c.P.FuncID(fn)
+		if !(strings.HasPrefix(id, "loader.") || strings.HasPrefix(id, "validation.") || strings.HasPrefix(id, "transform.")) {
+			continue
+		}
+		for _, b := range fn.Blocks {
+			for _, in := range b.Instrs {
+				lk, ok := in.(*ssa.Lookup)
+				if !ok || !lk.CommaOk {
+					continue
+				}
+				if k, _ := prog.ConstString(lk.Index); k != "external" {
+					continue
+				}
+				used := false
+				for _, r := range *lk.Referrers() {
+					if ex, ok := r.(*ssa.Extract); ok && ex.Index == 0 {
+						for _, u := range *ex.Referrers() {
+							if _, isDbg := u.(*ssa.DebugRef); !isDbg {
+								used = true
+							}
+						}
+					}
+				}
+				out = append(out, verdict(used, rule, id+" :: the value of `external` is looked at", c.P.InstrPos(lk),
+					"the looked-up value is used, not only its presence", "only the presence of the `external` key is tested: `external: false` counts as external"))
+			}
+		}
+	}
 	return out
 }
 
